@@ -184,6 +184,11 @@ func genOp(rng *rand.Rand, p E2E, conn, caller int, counter uint64) *Op {
 		o.Spec.DelayUs = 0
 	}
 	o.BufCap = []int{0, 1, 64, 1024, 70000, int(o.Spec.ReplyLen) + svc.IDLen + 32, int(o.Spec.ReplyLen) + svc.IDLen + 31, int(o.Spec.ReplyLen) + svc.IDLen + 33}[rng.Intn(8)]
+	if rng.Intn(3) == 0 && o.Spec.ReplyLen < 70000 {
+		// exactly at, one below and one above the encoded reply
+		enc := rig.EncodedLenFor(p.Cfg.Codec, int(o.Spec.ReplyLen)+svc.IDLen+32)
+		o.BufCap = enc - 1 + rng.Intn(3)
+	}
 	o.Kind = KCall
 	failing := 0
 	switch p.Profile {
@@ -926,6 +931,15 @@ func judgeE2E(out *Outcome, p E2E, r *rig.Rig, conns []*e2eConn, all []*Op, stre
 			if len(ex) > 1 {
 				out.add("C04", "C04/e2e/exec-count/ctx", fmt.Sprintf("abandoned call %s was executed %d times (%s)", id, len(ex), cfgs), nil)
 			}
+		}
+	}
+	// exactly-once as seen by the asynchronous forms: no late second signal, Error unchanged (C02)
+	for _, o := range all {
+		if o.Rec == nil {
+			continue
+		}
+		if extra, changed := o.Rec.LateSignals(); extra > 0 || changed {
+			out.add("C02", "C02/e2e/late-signal", fmt.Sprintf("%s %s (id %s) was signalled %d more times after it had completed (Error changed afterwards: %v) (%s)", o.Form, o.Kind, o.Spec.ID(), extra, changed, cfgs), nil)
 		}
 	}
 	out.stat("calls_ok", okCalls)
